@@ -199,16 +199,25 @@ func report(ctx *core.Ctx, c *Case, v *Verdict) {
 		return
 	}
 	orig := c.Size()
-	min, execs := Shrink(c, v.Key)
+	min, execs := c, 0
+	if again := Exec(c); again != nil && again.Key == v.Key {
+		min, execs = Shrink(c, v.Key)
+	}
 	mv := Exec(min)
+	needsHistory := false
 	if mv == nil || mv.Key != v.Key {
-		min, mv = c, v // should be impossible; report the unminimised case
+		// The case does not fail when executed again on its own: the code under test
+		// carries package-level state from case to case. Report the original case; replay
+		// re-runs this shard's run sequence up to this run (deterministic all the same).
+		min, mv = c, v
+		needsHistory = true
+		ctx.Stats.Inc("probe/violation_depends_on_state_carried_across_cases")
 	}
 	min.InputQ = fmt.Sprintf("%q", min.Input)
 	data, _ := json.Marshal(min)
 	ctx.Report(&core.Violation{Clause: mv.Clause, Key: mv.Key, Detail: mv.Detail, Case: data,
 		CaseText: describe(min), Expected: clip(mv.Expected, 12), Observed: clip(mv.Observed, 12),
-		OrigSize: orig, MinSize: min.Size(), ShrinkExec: execs})
+		OrigSize: orig, MinSize: min.Size(), ShrinkExec: execs, NeedsHistory: needsHistory})
 }
 
 func describe(c *Case) string {
